@@ -1,5 +1,6 @@
 """C03 - relative branches and jumps reach exactly the target that was named."""
 import random
+import re
 
 from . import encgen, encrun, progcheck as P, progrun
 
@@ -110,7 +111,15 @@ def program_cases(rng, n):
                 lines = pre + body + ["  %s pc-%d" % (op, back)]
             at = npre + back
         cases.append(("\n".join(lines) + "\n", at, word_of(op, d)))
-    return cases
+    # letter case of the label: defined and referenced in any mixture
+    out = []
+    for text, at, want in cases:
+        if "tgt" in text and rng.random() < 0.5:
+            a, b = rng.choice([("Tgt", "tgt"), ("tgt", "TGT"), ("TGT", "Tgt"), ("Target_1", "TARGET_1"), ("LOOP", "LOOP")])
+            text = re.sub(r"\btgt:", a + ":", text)
+            text = re.sub(r"\btgt\b", b, text)
+        out.append((text, at, want))
+    return out
 
 
 def run(res):
